@@ -309,6 +309,48 @@ theorem C08_union_over_locales (recMerge : MergeRec) (kp : KeyPath) :
       simp only [List.flatMap_cons]
       exact Extends.trans hstep.extends hext
 
+/-! ### `mergeAll` is the per-key view of `Locale::merge` -/
+
+/-- one builder key before (`p`) and after (`q`) a locale has been merged: same name, and the new
+    value is `ParsedValue::merge` of the (reduced) value the locale has for that key — an explicit
+    default when the locale lacks the key -/
+def MergedKey (recMerge : MergeRec) (top : Str) (dto : DefaultTo) (path : KeyPath) (p q : Str × LV) : Prop :=
+  p.1 = q.1 ∧ ∃ raw cur st v' st', Reduce.reduce raw = .ok cur ∧
+    mergeValue recMerge top dto (pushKey path p.1) cur p.2 st = .ok (v', q.2, st')
+
+/-- pointwise relation between two lists of the same length -/
+def Pointwise {α β} (R : α → β → Prop) : List α → List β → Prop
+  | [], [] => True
+  | a :: as, b :: bs => R a b ∧ Pointwise R as bs
+  | _, _ => False
+
+/-- **`Locale::merge` visits every builder key exactly once**, in order, and replaces it by the
+result of `ParsedValue::merge` on that key: `mergeAll` is this, seen from one key, across locales -/
+theorem C08_mergeKeys_per_key (recMerge : MergeRec) (top : Str) (dto : DefaultTo) (path : KeyPath) :
+    ∀ (bki : BKI) (ks : List (Str × PV)) (accB : BKI) (st : St) (ks' : List (Str × PV)) (bki' : BKI) (st' : St),
+    mergeKeys recMerge top dto path bki ks accB st = .ok (ks', bki', st') →
+    ∃ merged, bki' = accB ++ merged ∧ Pointwise (MergedKey recMerge top dto path) bki merged := by
+  intro bki
+  induction bki with
+  | nil =>
+    intro ks accB st ks' bki' st' h
+    simp only [mergeKeys, Res.ok.injEq, Prod.mk.injEq] at h
+    exact ⟨[], by simp [h.2.1], trivial⟩
+  | cons p rest ih =>
+    intro ks accB st ks' bki' st' h
+    obtain ⟨k, lv⟩ := p
+    simp only [mergeKeys] at h
+    split at h
+    · cases h
+    · cases h
+    · rename_i cur hred
+      split at h
+      · cases h
+      · cases h
+      · rename_i v' lv' st1 hm
+        obtain ⟨merged, hb, hf⟩ := ih _ _ _ _ _ _ h
+        refine ⟨(k, lv') :: merged, by simp [hb], ⟨⟨rfl, _, cur, _, v', st1, hred, hm⟩, hf⟩⟩
+
 /-- starting from nothing, `Extends` says the signature *is* the set of occurrences -/
 theorem Extends.exact_of_empty {K K' : IKeys} {vs cs ns} (h : Extends K K' vs cs ns)
     (hc : K.comps = []) (hv : K.vars = []) :
